@@ -106,26 +106,30 @@ fn c06_method_gaussian_self_dim2() {
     kani::cover!(a[0] != a[1] && a[0] < 0.0);
 }
 
-// @unit class=bounded tier=quick mem=light timeout=240 bound="dim=1" fns=linfa_kernel::KernelMethod::distance
+// @unit class=bounded tier=quick mem=light timeout=400 bound="dim=1,coords in -100..100" fns=linfa_kernel::KernelMethod::distance
 #[kani::proof]
 #[kani::unwind(10)]
 #[kani::stub(alloc::fmt::format, fmt_stub)]
 #[kani::stub(f32::exp, ghost_exp32)]
 fn c06_method_gaussian_dim1() {
-    let (a, b, eps): (f32, f32, f32) = (kani::any(), kani::any(), kani::any());
-    kani::assume(a.is_finite() && b.is_finite() && !eps.is_nan() && eps != 0.0);
+    // integer coordinates in [-100,100] (exact squares), EVERY bandwidth: any non-NaN, non-zero f32 incl. subnormal and infinite
+    let (ia, ib): (i8, i8) = (kani::any(), kani::any());
+    kani::assume(ia >= -100 && ia <= 100 && ib >= -100 && ib <= 100);
+    let eps: f32 = kani::any();
+    kani::assume(!eps.is_nan() && eps != 0.0);
+    let (a, b) = (ia as f32, ib as f32);
     let (pa, pb) = (arr1(&[a]), arr1(&[b]));
     let m: KernelMethod<f32> = KernelMethod::Gaussian(eps);
     let k = m.distance(pa.view(), pb.view());
-    let arg = -((a - b) * (a - b)) / eps;
-    // (a-b)^2 may overflow to +inf and eps may be infinite: inf/inf = NaN, exp(NaN) = NaN (the ghost does not record NaN calls)
-    if arg.is_nan() { assert!(k.is_nan()); } else {
-        unsafe { assert!(G_EXP_N == 1 && G_EXP_A[0] == arg && k.to_bits() == G_EXP_R[0].to_bits()); }
-    }
+    let d = ia as i32 - ib as i32;
+    let arg = -((d * d) as f32) / eps;
+    unsafe { assert!(G_EXP_N == 1 && G_EXP_A[0] == arg && k.to_bits() == G_EXP_R[0].to_bits()); }
+    if eps > 0.0 { assert!(k >= 0.0 && k <= 1.0); }
     if eps > 0.0 { assert!(m.distance(pa.view(), pa.view()) == 1.0); }
-    kani::cover!(eps > 0.0 && a != b && arg.is_finite());
+    kani::cover!(eps > 0.0 && a != b && arg.is_finite() && arg != 0.0);
     kani::cover!(eps < 0.0 && a != b);
-    kani::cover!(arg.is_nan());
+    kani::cover!(eps == f32::INFINITY && a != b);
+    kani::cover!(arg == f32::NEG_INFINITY);
 }
 
 // @unit class=bounded tier=quick mem=light timeout=240 bound="dim=2,coords in -8..8" fns=linfa_kernel::KernelMethod::distance
